@@ -63,7 +63,27 @@ fn decode_sparse(src: &mut Source) -> Box<dyn Case> {
     Box::new(C18Case { lang, titles, size, queries: vec![q1, rare_a.clone()], early: Vec::new(), session: 0 })
 }
 
+/// more than a thousand records, most of them sharing the query's grams; the index is asked once
+/// while it is still small, then filled up, then asked again
+fn decode_huge(src: &mut Source) -> Box<dyn Case> {
+    let lang = gen_lang(src);
+    let plain = plain_letters(lang);
+    let k = src.range(3, 6);
+    let vocab: Vec<String> = (0..src.range(2, 4)).map(|_| (0..src.range(2, 5)).map(|_| plain[src.below(k)]).collect()).collect();
+    let nrec = src.range(1024, 2500);
+    let titles: Vec<String> = (0..nrec).map(|_| format!("{} {}", src.pick(&vocab), src.pick(&vocab))).collect();
+    let size = *src.pick(&[1usize, 10, 52, 60, 120, 300]);
+    let w: Vec<char> = src.pick(&vocab).chars().collect();
+    let q1: String = w[..1 + src.below(w.len())].iter().collect();
+    let q2 = src.pick(&vocab).clone();
+    let early = vec![(src.range(1, 1000), q1.clone())];
+    Box::new(C18Case { lang, titles, size, queries: vec![q1, q2], early, session: 0 })
+}
+
 pub fn decode(src: &mut Source) -> Box<dyn Case> {
+    if src.chance(1, 400) {
+        return decode_huge(src);
+    }
     if src.chance(1, 60) {
         return decode_paragraph(src);
     }
@@ -209,6 +229,7 @@ impl Case for C18Case {
             ctx.count("prepares", 1);
         }
         ctx.label_if(self.size == 0, "size-0");
+        ctx.label_if(self.titles.len() >= 1024, "store>=1024");
         ctx.label_if(!self.early.is_empty(), "asked-while-building");
         ctx.label_if(self.titles.iter().any(|t| t.is_empty()), "empty-title");
         Ok(())
